@@ -175,3 +175,11 @@ PROPS['C04'] = dict(
                 'renderer lookup for every announced datatype. T1 obligations in the type-tag domain are listed in the evidence as they are built.',
     trusted_base=['Beancount field types'], assumptions=['collections conform by kind (set / list interchangeable), object admits anything'],
 )
+
+PROPS['C06'] = dict(
+    level='exploration', harness='h06', min_t1=0,
+    explanation='The deciding code is the TatSu runtime plus the generated parser: no function contract on it can be discharged here, so this property is decided on a bounded scope only '
+                '(T3): parse(unparse(a)) == a with a specification printer written from the statement precedence table, over enumerated ASTs and four printing styles; plus the '
+                'extraction-faithfulness obligation that parser.py is byte-identical to the TatSu translation of bql.ebnf.',
+    trusted_base=['TatSu 5.7 code generator and runtime'], assumptions=[],
+)
